@@ -265,6 +265,9 @@ def oracle(hist, steps, flags, base):
             if depth == 0 and ids != [0, 1, 0, 1]:
                 return ("after removal with no context open the bindings are not the originals: "
                         f"{dict(zip(SLOTS, cls))}", i, None)
+            if depth == 0 and st.get("unp", "O") != "O":
+                return ("after removal with no context open pickle.Unpickler is still the environment's "
+                        "replacement class", i, None)
         elif k == "enter":
             saved.append(prev)
             depth += 1
